@@ -29,6 +29,8 @@ FLOORS["quick"].update({'timeouts_by_class_constructor': 4000, 'chained_triggers
 FLOORS["thorough"].update({'timeouts_by_class_constructor': 20000, 'chained_triggers_fired': 400, 'interrupts_issued_from_plain_callbacks': 1500})
 FLOORS["quick"].update({'rational_clock_programs': 300})
 FLOORS["thorough"].update({'rational_clock_programs': 1500})
+FLOORS["quick"].update({'programs_with_timeouts_at_infinity': 350})
+FLOORS["thorough"].update({'programs_with_timeouts_at_infinity': 1750})
 
 PROFILE = {"weights": {"timeout": 6, "zero": 2, "wait": 2, "succeed": 2, "fail": 0.5, "spawn": 2, "join": 2,
                        "interrupt": 3, "cb": 0.5, "cond": 0, "cbint": 0.3, "chain": 0.2},
